@@ -20,6 +20,8 @@ def gen_config(rng, thorough, cls=None):
     txcount = rng.choice([2000, 2000, 100, 3, 1, 0])
     if cls == "drain":
         txblock, txcount = rng.choice([1, 2, 3]), rng.choice([1, 2, 3])
+    elif cls == "single":
+        count = 1  # a lone validator decides inside Start()/OnTimeout(), never inside OnReceive()
     elif cls == "empty":
         txblock, txcount = rng.choice([0, 1]), (0 if rng.random() < 0.5 else 2000)
         if txblock == 1:
@@ -100,12 +102,14 @@ def main(prop, spec, argv, seed, chk):
             rng = random.Random(seed * 7919 + 17)
             n = spec[tier]["runs"]
             runs = [gen_config(rng, tier == "thorough") for _ in range(n)]
-            # always include the documented default shape (scaled down) once, one run whose pools run dry
-            # and (thorough) one without any transactions
+            # always include the documented default shape (scaled down) once, one run whose pools run dry,
+            # one with a single validator and one without any transactions
             runs[0] = {"count": 4, "watchers": 1, "blocked": -1, "txblock": 1, "txcount": 2000, "gomaxprocs": 16, "duration": runs[0]["duration"]}
             runs[1] = gen_config(rng, tier == "thorough", "drain")
+            if n > 2:
+                runs[2] = gen_config(rng, tier == "thorough", "single")
             if n > 3:
-                runs[2] = gen_config(rng, tier == "thorough", "empty")
+                runs[3] = gen_config(rng, tier == "thorough", "empty")
         netns = subprocess.run(["unshare", "-n", "true"], stdout=subprocess.DEVNULL, stderr=subprocess.DEVNULL).returncode == 0
         results = []
         viols = []
